@@ -189,7 +189,18 @@ def psd_part(run, np, ode, rng, T_):
         w = rng.uniform(30.0, 150.0, nel)
         kd = np.concatenate((np.zeros(nrb), w ** 2 * md[nrb:]))
         bd = np.concatenate((np.zeros(nrb), 2 * 0.03 * w * md[nrb:]))
-        freq = np.sort(rng.uniform(2.0, 60.0, 25))
+        # frequency grids: random, uniform, logarithmic, and a coarse grid with a refined band around a resonance (uneven inside,
+        # yet with equal first and last steps)
+        gk = trial % 4
+        if gk == 0:
+            freq = np.sort(rng.uniform(2.0, 60.0, 25))
+        elif gk == 1:
+            freq = np.linspace(2.0, 60.0, 25)
+        elif gk == 2:
+            freq = np.geomspace(2.0, 60.0, 25)
+        else:
+            f0 = float(rng.uniform(20.0, 40.0))
+            freq = np.unique(np.round(np.concatenate((np.arange(2.0, 61.0, 1.0), np.arange(f0 - 1.0, f0 + 1.0, 0.05))), 6))
         nfrc = int(rng.integers(1, 4))
         t_frc = rng.standard_normal((n, nfrc))
         if trial % 3 == 1:
@@ -231,6 +242,41 @@ def psd_part(run, np, ode, rng, T_):
                 area = np.sqrt(np.sum(np.diff(freq) * (got[:, :-1] + got[:, 1:]) / 2, axis=1))
                 if not np.allclose(rms[j], area, rtol=1e-12, atol=0):
                     run.violation("solvepsd: rms is not the square root of the trapezoidal area of the PSD response", case, {"solver": cls})
+        run.trace_validated()
+    reuse_part(run, np, ode, rng)
+
+
+def reuse_part(run, np, ode, rng):
+    """one solver object, two fsolve calls: the second with the SAME frequency / force ndarrays whose contents were changed in place
+    (the answer of a call depends on the values it is given, not on the identity of the arrays) - compared with a fresh object"""
+    from . import odesys
+    for trial in range(8 if run.tier == "quick" else 80):
+        kind = ["coupled", "diag", "cdamp"][trial % 3]
+        s = odesys.make_system(rng, kind, trial % 2, 3, 0, ["none", "vec", "mat"][(trial // 3) % 3] if kind != "coupled" else ["none", "mat"][trial % 2])
+        n = s["n"]
+        for cls in ("FreqDirect", "SolveUnc"):
+            mk = (lambda: ode.FreqDirect(s["m"], s["b"], s["k"])) if cls == "FreqDirect" else (lambda: ode.SolveUnc(s["m"], s["b"], s["k"]))
+            freq = np.linspace(3.0, 40.0, 7)
+            F = rng.standard_normal((n, 7)) + 1j * rng.standard_normal((n, 7))
+            run.case(("reuse", trial, cls), part="reused solver object, arrays changed in place")
+            try:
+                ts = mk()
+                first = ts.fsolve(F, freq)
+                d1 = first.d.copy()
+                freq += 0.9                      # same array object, new values
+                F *= 1.5
+                second = ts.fsolve(F, freq)
+                fresh = mk().fsolve(F.copy(), freq.copy())
+            except Exception as ex:
+                run.violation("%s.fsolve raised %r on a reused object" % (cls, ex), {"trial": trial}, {"solver": cls, "part": "reuse"})
+                continue
+            sc = np.abs(fresh.d).max()
+            if not np.abs(second.d - fresh.d).max() <= 1e-10 * sc or not np.abs(second.a - fresh.a).max() <= 1e-10 * np.abs(fresh.a).max():
+                run.violation("%s.fsolve: a second call on the same object, given the same frequency / force arrays with new contents, differs from a fresh "
+                              "object's answer (relative %.3g)" % (cls, np.abs(second.d - fresh.d).max() / sc), {"trial": trial, "kind": kind},
+                              {"solver": cls, "part": "reuse"})
+            elif not np.array_equal(first.d, d1):
+                run.deviation("OdeReuse (aliasing)", "%s.fsolve: the result of the first call was modified by the second" % cls, {"trial": trial})
         run.trace_validated()
 
 
